@@ -177,8 +177,17 @@ func (r *RectBounder) AddPoint(b Point) {
 		// be spent getting from A to B; the remainder bounds the round-trip
 		// distance (in latitude) from A or B to the min or max latitude
 		// attained along the edge AB.
-		latBudget := 2 * math.Asin(0.5*(r.a.Sub(b.Vector)).Norm()*math.Sin(maxLat))
-		maxDelta := 0.5*(latBudget-latAB.Length()) + dblEpsilon
+		//
+		// The arcsine is ill-conditioned as its argument approaches 1 (edges
+		// longer than about 150 degrees): the budget can then be wrong by 1e-8
+		// radians or negative, and for normalized nearly antipodal endpoints
+		// the argument can even exceed 1 (NaN). The refinement only matters
+		// for short edges, so for long ones rely on maxLat alone.
+		maxDelta := math.Pi
+		if x := 0.5 * (r.a.Sub(b.Vector)).Norm() * math.Sin(maxLat); x < 0.5 {
+			latBudget := 2 * math.Asin(x)
+			maxDelta = 0.5*(latBudget-latAB.Length()) + dblEpsilon
+		}
 
 		// Test whether AB passes through the point of maximum latitude or
 		// minimum latitude. If the dot product(s) are small enough then the
